@@ -10,30 +10,31 @@ static inline cplx cplx_ctor1(double re) { cplx c = {re, 0.0}; return c; }
 static inline cplx cplx_ctor2(double re, double im) { cplx c = {re, im}; return c; }
 static inline double cplx_real(const cplx *c) { return c->re; }
 static inline double cplx_imag(const cplx *c) { return c->im; }
-static inline cplx op_add_cplx_cplx(cplx a, cplx b) { cplx c = {a.re + b.re, a.im + b.im}; return c; }
-static inline cplx op_sub_cplx_cplx(cplx a, cplx b) { cplx c = {a.re - b.re, a.im - b.im}; return c; }
-static inline cplx op_sub_cplx_double(cplx a, double b) { cplx c = {a.re - b, a.im}; return c; }
-static inline cplx op_add_cplx_double(cplx a, double b) { cplx c = {a.re + b, a.im}; return c; }
-static inline cplx op_sub_double_cplx(double a, cplx b) { cplx c = {a - b.re, -b.im}; return c; }
-static inline cplx op_add_double_cplx(double a, cplx b) { cplx c = {a + b.re, b.im}; return c; }
-static inline cplx op_sub_cplx(cplx a) { cplx c = {-a.re, -a.im}; return c; }
+static inline cplx op_add_cplx_cplx(cplx a, cplx b) { cplx c = {D_ADD(a.re, b.re), D_ADD(a.im, b.im)}; return c; }
+static inline cplx op_sub_cplx_cplx(cplx a, cplx b) { cplx c = {D_SUB(a.re, b.re), D_SUB(a.im, b.im)}; return c; }
+static inline cplx op_sub_cplx_double(cplx a, double b) { cplx c = {D_SUB(a.re, b), a.im}; return c; }
+static inline cplx op_add_cplx_double(cplx a, double b) { cplx c = {D_ADD(a.re, b), a.im}; return c; }
+static inline cplx op_sub_double_cplx(double a, cplx b) { cplx c = {D_SUB(a, b.re), D_NEG(b.im)}; return c; }
+static inline cplx op_add_double_cplx(double a, cplx b) { cplx c = {D_ADD(a, b.re), b.im}; return c; }
+static inline cplx op_sub_cplx(cplx a) { cplx c = {D_NEG(a.re), D_NEG(a.im)}; return c; }
 static inline cplx op_mul_cplx_cplx(cplx a, cplx b)
-{ cplx c = {D_MUL(a.re, b.re) - D_MUL(a.im, b.im), D_MUL(a.re, b.im) + D_MUL(a.im, b.re)}; return c; }
+{ cplx c = {D_SUB(D_MUL(a.re, b.re), D_MUL(a.im, b.im)), D_ADD(D_MUL(a.re, b.im), D_MUL(a.im, b.re))}; return c; }
 static inline cplx op_mul_cplx_double(cplx a, double b) { cplx c = {D_MUL(a.re, b), D_MUL(a.im, b)}; return c; }
 static inline cplx op_mul_double_cplx(double a, cplx b) { cplx c = {D_MUL(a, b.re), D_MUL(a, b.im)}; return c; }
 static inline cplx op_div_cplx_double(cplx a, double b) { cplx c = {D_DIV(a.re, b), D_DIV(a.im, b)}; return c; }
 static inline cplx op_div_cplx_cplx(cplx a, cplx b)
-{ double d = D_MUL(b.re, b.re) + D_MUL(b.im, b.im);
-  cplx c = {D_DIV(D_MUL(a.re, b.re) + D_MUL(a.im, b.im), d), D_DIV(D_MUL(a.im, b.re) - D_MUL(a.re, b.im), d)}; return c; }
+{ double d = D_ADD(D_MUL(b.re, b.re), D_MUL(b.im, b.im));
+  cplx c = {D_DIV(D_ADD(D_MUL(a.re, b.re), D_MUL(a.im, b.im)), d), D_DIV(D_SUB(D_MUL(a.im, b.re), D_MUL(a.re, b.im)), d)}; return c; }
 static inline cplx op_div_double_cplx(double a, cplx b) { return op_div_cplx_cplx(cplx_ctor1(a), b); }
-static inline cplx *cplx_addassign(cplx *a, cplx b) { a->re += b.re; a->im += b.im; return a; }
-static inline cplx *cplx_subassign(cplx *a, cplx b) { a->re -= b.re; a->im -= b.im; return a; }
+static inline cplx *cplx_addassign(cplx *a, cplx b) { a->re = D_ADD(a->re, b.re); a->im = D_ADD(a->im, b.im); return a; }
+static inline cplx *cplx_subassign(cplx *a, cplx b) { a->re = D_SUB(a->re, b.re); a->im = D_SUB(a->im, b.im); return a; }
 static inline cplx *cplx_mulassign(cplx *a, cplx b) { *a = op_mul_cplx_cplx(*a, b); return a; }
 static inline cplx *cplx_assign(cplx *a, cplx b) { *a = b; return a; }
-static inline _Bool op_eq_cplx_cplx(cplx a, cplx b) { return a.re == b.re && a.im == b.im; }
+static inline _Bool op_eq_cplx_cplx(cplx a, cplx b) { return D_EQ(a.re, b.re) && D_EQ(a.im, b.im); }
 #define C_SAME(a, b) (D_SAME((a).re, (b).re) && D_SAME((a).im, (b).im))
-/* |z|: opaque, non-negative, |(x,0)| = |x| (TRUSTED contract of std::abs(std::complex)) */
+/* |z|: opaque (TRUSTED contract of std::abs(std::complex): a function of the value) */
 double __CPROVER_uninterpreted_cabs(double, double);
+#ifdef VERIF_FP_IEEE
 static inline double c_abs(cplx z)
 {
   if (z.im == 0.0) return z.re < 0 ? -z.re : z.re;
@@ -42,4 +43,9 @@ static inline double c_abs(cplx z)
   return r;
 }
 static inline double d_abs(double x) { return x < 0 ? -x : x; }
+#else
+double __CPROVER_uninterpreted_dabs(double);
+static inline double c_abs(cplx z) { return __CPROVER_uninterpreted_cabs(z.re, z.im); }
+static inline double d_abs(double x) { return __CPROVER_uninterpreted_dabs(x); }
+#endif
 #endif
